@@ -24,7 +24,7 @@ CHECKS = {
         ref="DESIGN.md section 3 C02"),
     "C03": dict(
         engine="svh",
-        text="Each generated heap-heavy program (cyclic/aliased containers, closures, records, partials, bound methods, frozen loaded values, embedder-set variables, extra_value, several ASTs on one module) "
+        text="Each generated heap-heavy program (cyclic/aliased containers, closures, records, partials, bound methods, frozen loaded values, embedder-set variables, extra_value, several ASTs on one module, evaluations nested in native calls) "
              "runs under GC schedules never / default / every k-th safepoint (hook H1); sharing-sensitive transcripts must equal the no-GC run; every from-space is poisoned and quarantined (hook H2) so a "
              "missed root crashes or mis-encodes deterministically; ASan build in thorough. Held on the (program, schedule) pairs executed; evidence reports collections performed and bytes poisoned.",
         note="trusted: hooks H1/H2; collections can only be placed at safepoints the evaluator offers; identity of immutable values is not compared",
@@ -32,7 +32,7 @@ CHECKS = {
         ref="DESIGN.md section 3 C03"),
     "C13": dict(
         engine="svh",
-        text="Random histories over frozen modules (load chains, re-exports, values inside containers, captured by functions and default arguments), owned handles (get_owned/map/add_to_heap), "
+        text="Random histories over frozen modules (load chains, re-exports, values inside containers, captured by functions and default arguments), owned handles (get_owned/map/add_to_heap, handles re-homed under fresh forwarding heaps), "
              "globals built from module values and modules built from globals, unfrozen importing modules, and drops in any order (biased to producer-first, some on other threads); after every operation every "
              "still-live object is re-observed (functions are called) and compared with its recorded content; every dying arena is poisoned and quarantined (H2); ASan build in thorough.",
         note="trusted: hook H2; the observation recorded at creation; FrozenModule/OwnedFrozen moved across threads through an unsafe Send wrapper in the harness",
@@ -42,7 +42,7 @@ CHECKS = {
         engine="svh",
         text="For every generated library module: encoding, hash, str and repr of every export are recorded just before freeze and compared with the frozen module; 1-3 importing modules (plus an importer of a re-exporting importer) "
              "run a generic walker over everything reachable from the loaded values and try the complete mutator catalogue on every container found - each attempt is validated by a control on an unfrozen shallow copy (must succeed and change it) "
-             "and must then fail on the frozen container and change nothing; non-mutating operations must give the same results as on the copy; finally every export is re-observed. Held on the libraries generated.",
+             "and must then fail on the frozen container and change nothing; non-mutating operations must give the same results as on the copy; in a second round every well-formed attempt is repeated through the literal (constant-foldable) path to the container, written out as its own def in a fresh importer and in the library itself; finally every export is re-observed. Held on the libraries generated.",
         note="trusted: the walker (lists, tuples, dict keys/values, struct/record fields, depth 4); the catalogue of mutating operations in the walker source; self-containing values are excluded from the frozen-vs-copy comparison of non-mutating operations",
         technique="conservation monitor across freeze + fault-injection style mutation attempts with unfrozen controls",
         ref="DESIGN.md section 3 C04"),
@@ -85,8 +85,8 @@ CHECKS = {
         text="The algebraic laws themselves are the oracle: reflexivity, symmetry, transitivity (through equivalence classes, i.e. all triples), "
              "agreement of ==, != and host Value::equals, equal => same hashability, same hash and interchangeable as dict keys / set members, "
              "trichotomy and transitivity of < per orderable type, agreement with Value::compare, and sorted() = ordered stable permutation; "
-             "checked over all ordered pairs of a pool in which every abstract value is built through many representations and construction paths, "
-             "unfrozen and frozen-and-loaded. Held on the pool explored.",
+             "checked over all ordered pairs of a pool in which every abstract value is built through many representations and construction paths (also nested in hashable containers), "
+             "unfrozen and frozen-and-loaded; every literal pool entry is additionally spelled out as a constant operand in ten comparison forms whose answers must equal the generic matrix. Held on the pool explored.",
         note="trusted: the law checker in pylib/c09.py; NaN excluded from order laws (IEEE unordered) but not from reflexivity; one open known finding (lossy int/float equality) is recognised by a value-based classifier",
         technique="runtime law monitor (algebraic properties) over all pairs/triples of a generated value pool",
         ref="DESIGN.md section 3 C09"),
@@ -119,22 +119,22 @@ CHECKS = {
         text="Limit model over measured quantities: (depth) 17 recursion shapes (direct, mutual, lambdas, comprehensions, sorted/map callbacks, partial, struct fields, kwargs/*args, inlinable wrappers, frozen defs) x limits {2,3,10,50,200(,1000)} x depths around each limit: "
              "the evaluator's own frame count D at the deepest point of an unlimited run decides - D<=limit must be unaffected, D>limit must fail with StackOverflow; unbounded recursion on 8 MiB and 2 MiB stacks must end with StackOverflow, not a crash; "
              "(ticks) tick counts of 7 loop/call structures are identical across runs and lie between structural bounds (iterations + calls), and with budgets placed around the measured N the run succeeds iff N<=B and fails within B+1000 ticks; "
-             "(cancel) after cancel() the evaluation ends with an error within 1000 further iterations at 11 tick positions x 4 loop forms; (reuse) afterwards the call stack is empty and the probe works.",
+             "(cancel) after cancel() the evaluation ends with an error within 1000 further iterations at 11 tick positions x 4 loop forms; (reuse) afterwards the call stack is empty and the probe works, and limit events repeated on the same evaluator (2-4 cancellations, three over-budget items) are honoured each time.",
         note="trusted: Evaluator::call_stack_count()/get_total_tick_count() as measuring devices; the documented check interval of 1000",
         technique="runtime limit-model monitor over enumerated (shape, limit, depth/budget/position) scenarios",
         ref="DESIGN.md section 3 C15"),
     "C16": dict(
         engine="svh",
         text="~520 type expressions (quick; all depth<=2 plus depth 3 in thorough) over Any, Never, None, the basic types, list/set/dict/tuple forms, fixed-arity tuples, unions of 2 and 3, Callable, Iterable, two records and two enums of equal shape, struct, range "
-             "x 70 values (every builtin type, empty/heterogeneous/nested containers, records/enums of both declarations, callables of every kind) are checked on 5 paths (isinstance, parameter annotation, return annotation, annotated local assignment, host TypeCompiled::matches), "
-             "each unfrozen and with types, values and checking functions exported from a frozen module: all 10 answers must agree, and - where docs/types.md decides - equal an independent membership oracle.",
+             "x 70 values (every builtin type, empty/heterogeneous/nested containers, records/enums of both declarations, callables of every kind) are checked on 9 paths (isinstance, host TypeCompiled::matches, parameter / *args / **kwargs / keyword-only annotations, annotated parameter default, return annotation, annotated local assignment), "
+             "each unfrozen and with types, values and checking functions exported from a frozen module: all 18 answers must agree, and - where docs/types.md decides - equal an independent membership oracle.",
         note="trusted: the membership oracle member() in pylib/c16.py (float-vs-int, Callable-vs-enum-type, Iterable-vs-str/struct are left to agreement only); one open known finding (documented tuple[T1, T2] spelling) keyed on its signature",
         technique="runtime agreement monitor across check paths + independent reference oracle over an enumerated type x value space",
         ref="DESIGN.md section 3 C16"),
     "C17": dict(
         engine="svh",
         text="Each module is type-checked twice (diagnostics, type map and approximations must be identical), linted, and evaluated. Corpora: modules well typed by construction from the type-directed generator (in functions and at module level), "
-             "annotated full-dialect modules, and scrambled ill-typed modules for the no-crash part. The checker must report nothing on the well-typed corpus; for every binding to which it commits a definite type (no Any inside, module without approximations) "
+             "annotated full-dialect modules, scrambled ill-typed modules and self-referential bindings for the no-crash / termination part (termination decided on CPU time: 240 s for a module of a few KB, run alone). The checker must report nothing on the well-typed corpus; for every binding to which it commits a definite type (no Any inside, module without approximations) "
              "every value the running program observed for that binding must be a member (C16 oracle on the rendered type); for exported names isinstance(value, rendered interface type) must hold.",
         note="trusted: the generator's notion of well-typed (no container mutation after binding, no risky forms); the parser for rendered types in pylib/c17.py; the C16 membership oracle",
         technique="runtime confrontation of static commitments with observed values + determinism / no-crash monitors over generated modules",
